@@ -161,7 +161,7 @@ func runIngest(env *fw.Env, id string, csvBytes []byte, pkNames []string, cfg in
 	if cfg.Chunks == "auto" {
 		runSize = 0
 	}
-	if cfg.Via == "cli" || cfg.Via == "cli-bf" {
+	if cfg.Via == "cli" || cfg.Via == "cli-bf" || cfg.Via == "cli-cfg" {
 		root := filepath.Join(env.Dir, "repo-"+id)
 		os.RemoveAll(root)
 		wd, err := mon.NewRepo(root)
@@ -214,6 +214,24 @@ func runIngest(env *fw.Env, id string, csvBytes []byte, pkNames []string, cfg in
 			}
 			two[2] = "third"
 			_, err, pn := mon.Wrgl(wd, nil, two...)
+			res.Err, res.Panic = err, pn
+			if err != nil || pn != "" {
+				return
+			}
+		} else if cfg.Via == "cli-cfg" {
+			// the very first commit of the branch comes from its configured file (no head, nothing cached)
+			os.WriteFile(fp, csvBytes, 0644)
+			steps := [][]string{{"config", "set", "branch.main.file", fp}}
+			if len(pkNames) > 0 {
+				steps = append(steps, []string{"config", "set", "branch.main.primaryKey", strings.Join(pkNames, ",")})
+			}
+			for _, st := range steps {
+				if out, err, pn := mon.Wrgl(wd, nil, st...); err != nil || pn != "" {
+					res.Err, res.Panic = fmt.Errorf("harness: %v: %v %s", st, err, out), pn
+					return
+				}
+			}
+			_, err, pn := mon.Wrgl(wd, nil, "commit", "main", "first commit from the configured file", "--no-progress", "-n", fmt.Sprint(cfg.Workers))
 			res.Err, res.Panic = err, pn
 			if err != nil || pn != "" {
 				return
